@@ -267,6 +267,7 @@ func (g *Gen) applyContract(fr *Frame, st *State, con *FuncContract, sig *types.
 		g.oblige(st, "requires", fmt.Sprintf("%s/call %s#%d/requires %s", funcKey(fr.fn), shortKey(key), seq, r.Label), goal, r, nil)
 	}
 	pre := st.clone()
+	g.frameCallee(st, env, con, key)
 	// frame
 	if con.HasModifies {
 		for _, m := range con.Modifies {
@@ -526,6 +527,7 @@ func (g *Gen) appendB(fr *Frame, st *State, c *ssa.CallCommon) Val {
 		contents = nc
 	}
 	arr := ite(fits, oldArr, fresh)
+	g.frameElems(st, arr, et)
 	g.heapSet(st, k, srt, sx("store", h, arr, contents))
 	return Val{T: g.define("apres", "Slice", sx("mk_slice", arr, off, newLen, ite(fits, oldCap, newCap)))}
 }
@@ -557,6 +559,7 @@ func (g *Gen) copyB(fr *Frame, st *State, c *ssa.CallCommon) Val {
 	start := sx("s_off", dst)
 	g.sc.addAxiom([]string{nc}, fmt.Sprintf("(assert (forall ((j %s)) (! (= (select %s j) (ite (and %s %s) %s (select %s j))) :pattern ((select %s j)))))",
 		g.idxSort(), nc, le(start, "j"), lt("j", add(start, cnt)), srcAt(g.arith(token.SUB, "j", start, intT)), oldC, nc))
+	g.frameElems(st, sx("s_arr", dst), et)
 	g.heapSet(st, k, srt, sx("store", h, sx("s_arr", dst), nc))
 	return Val{T: cnt}
 }
